@@ -152,6 +152,9 @@ func render(cfg histCfg, specs []PktSpec, clientIP string) (units [][]byte, evs 
 		case "data":
 			b = tsgu.Data(p.Payload)
 			e.Payload = p.Payload
+			if p.Mal == "over" { // the inner length field announces more payload than the packet carries
+				b = tsgu.DataRaw(p.Payload, len(p.Payload)+1+p.MalN%600)
+			}
 		case "ka":
 			b = tsgu.Keepalive()
 		case "close":
